@@ -77,3 +77,45 @@ theorem layoutGo_length (ps : List (Nat × Tx)) (sids : List Nat) (len : Nat) :
     omega
 
 end CkbVerif.Compact
+
+namespace CkbVerif.Compact
+
+/-- the prefilled indexes can be honoured: each is at or after the current length and there are
+enough short ids left to fill the gap before it -/
+def fits : List (Nat × Tx) → Nat → Nat → Prop
+  | [], _, _ => True
+  | (i, _) :: ps, n, len => len ≤ i ∧ i - len ≤ n ∧ fits ps (n - (i - len)) (i + 1)
+
+theorem layoutGo_pre_at (ps : List (Nat × Tx)) (sids : List Nat) (len : Nat) (hf : fits ps sids.length len)
+    (idx : Nat) (t : Tx) (hm : (idx, t) ∈ ps) : len ≤ idx ∧ (layoutGo ps sids len)[idx - len]? = some (.pre t) := by
+  induction ps generalizing sids len with
+  | nil => simp at hm
+  | cons p ps ih =>
+    obtain ⟨i, t0⟩ := p
+    simp only [fits] at hf
+    obtain ⟨hle, hgap, hrest⟩ := hf
+    have htake : (sids.take (i - len)).length = i - len := by
+      rw [List.length_take]; omega
+    simp only [layoutGo]
+    simp only [List.mem_cons, Prod.mk.injEq] at hm
+    cases hm with
+    | inl e =>
+      obtain ⟨e1, e2⟩ := e
+      subst e1; subst e2
+      refine ⟨hle, ?_⟩
+      have hml : ((sids.take (idx - len)).map Slot.short).length = idx - len := by rw [List.length_map, htake]
+      rw [List.getElem?_append_right (by rw [hml]; exact Nat.le_refl _), hml]
+      simp
+    | inr hm =>
+      have hlen' : len + (sids.take (i - len)).length + 1 = i + 1 := by rw [htake]; omega
+      rw [hlen']
+      have hdrop : (sids.drop (i - len)).length = sids.length - (i - len) := by simp
+      obtain ⟨hle2, hget⟩ := ih (sids.drop (i - len)) (i + 1) (by rw [hdrop]; exact hrest) hm
+      refine ⟨by omega, ?_⟩
+      have hml : ((sids.take (i - len)).map Slot.short).length = i - len := by rw [List.length_map, htake]
+      rw [List.getElem?_append_right (by rw [hml]; omega), hml]
+      have : idx - len - (i - len) = (idx - (i + 1)) + 1 := by omega
+      rw [this, List.getElem?_cons_succ]
+      exact hget
+
+end CkbVerif.Compact
